@@ -52,6 +52,10 @@ def options(ids):
     """all modifier applications valid for the identifier set `ids` (dict name -> value)"""
     names = sorted(ids)
     out = []
+    # the two import sets that expose NOTHING: `only` without identifiers and `except` naming every identifier
+    out.append(("only", ()))
+    if len(names) <= 8:
+        out.append(("except", tuple(names)))
     for k in (1, 2, 3):
         for sub in itertools.combinations(names, k):
             if k < len(names) or k == len(names):
@@ -109,7 +113,7 @@ def apply_model(ids, opt):
 def render(expr, opt):
     kind, arg = opt
     if kind in ("only", "except"):
-        return "(%s %s %s)" % (kind, expr, " ".join(arg))
+        return ("(%s %s %s)" % (kind, expr, " ".join(arg))) if arg else "(%s %s)" % (kind, expr)
     if kind == "rename":
         return "(rename %s %s)" % (expr, " ".join("(%s %s)" % p for p in arg))
     return "(%s %s %s)" % (kind, expr, arg)
@@ -124,6 +128,8 @@ def explore(depth, reduced_from=None):
     for d in range(depth):
         nxt = []
         for expr, ids, path in level:
+            if not ids:
+                continue          # an empty import set is a leaf: it is checked (nothing may be visible) but not expanded
             opts = options(ids)
             if reduced_from is not None and d >= reduced_from:
                 # deeper levels: one representative per modifier kind and argument size
@@ -137,7 +143,7 @@ def explore(depth, reduced_from=None):
                 opts = red
             for o in opts:
                 new = apply_model(ids, o)
-                if new is None or not new:
+                if new is None:
                     continue
                 transitions += 1
                 states.add(tuple(sorted(new.items())))
